@@ -397,7 +397,152 @@ def case_op(ctx, inp):
     _same(ctx, op, r, e, sig=sig)
 
 
-CASES = {"fn": case_fn, "concat": case_concat, "pad1d": case_pad1d, "roll1d": case_roll1d, "op": case_op}
+# ---------------------------------------------------------------------------
+# `_shuffle` as a whole: validation, the "already shuffled" shortcut and its near misses, take / getitem / shuffle paths
+# ---------------------------------------------------------------------------
+
+def _identity_groups(old):
+    out, s = [], 0
+    for c in old:
+        out.append(list(range(s, s + c)))
+        s += c
+    return out
+
+
+def _classify_indexer(old, groups):
+    """where an indexer sits relative to `_shuffle`'s no-op test (independent of model and code)"""
+    ident = _identity_groups(old)
+    if groups == ident:
+        return "identity"
+    flat = [i for g in groups for i in g]
+    if len(groups) != len(old):
+        return "identity-other-grouping" if flat == list(range(sum(old))) else "other-length"
+    if [len(g) for g in groups] != list(old):
+        return "identity-shifted-boundaries" if flat == list(range(sum(old))) else "other"
+    if all(sorted(g) == i for g, i in zip(groups, ident)):
+        if all((not g) or (g[0] == i[0] and g[-1] == i[-1]) for g, i in zip(groups, ident)):
+            return "near-miss:first-last-fixed"
+        return "near-miss:same-set-per-chunk"
+    if sorted(flat) == list(range(sum(old))):
+        if all((not g) or (g[0] == i[0] and g[-1] == i[-1]) for g, i in zip(groups, ident)):
+            return "near-miss:cross-chunk-swap:first-last-fixed"
+        return "near-miss:cross-chunk-swap"
+    return "same-lengths-other"
+
+
+def _exc(f):
+    try:
+        return f(), None
+    except (ValueError, IndexError, ZeroDivisionError) as ex:
+        return None, type(ex).__name__
+
+
+def case_shuf(ctx, inp):
+    """inp: chunks (all axes), axis, and either `groups` (shuffle) or `index` (take / getitem)."""
+    import numpy as np
+    import dask
+    import dask.array as da
+    from dask.array._shuffle import _shuffle
+    setup_dask()
+    chunks, ax = [list(c) for c in inp["chunks"]], inp["axis"]
+    old = chunks[ax]
+    x, d = _mk(chunks)
+    tol = dask.config.get("array.chunk-size-tolerance")
+    limit = int(sum(old) / len(old) * tol)
+    line = [int(v) for v in x] if x.ndim == 1 else list(range(sum(old)))   # n-d: the model tracks positions along the axis
+    if "groups" in inp:
+        groups = [list(g) for g in inp["groups"]]
+        kind = _classify_indexer(old, groups)
+        # ---- function level: _shuffle vs the Lean shufflePlan / shuffleBlocks -------------------------------------
+        got, err = _exc(lambda: _shuffle(d.chunks, [list(g) for g in groups], ax, d.name, "out-tok", "tok"))
+        m = ctx.lean(Sym("shuffle_plan"), old, groups, limit, line)
+        if err is not None:
+            ctx.eq("_shuffle raises vs Lean validateIndexer", m, [Sym("raised"), Sym(err)])
+            ctx.branch("shuf:raised:" + err)
+            flat = [i for g in groups for i in g]
+            if groups and all(groups) and max(flat) < sum(old):
+                ctx.fail("_shuffle raised for a valid indexer", observed=err)
+            return
+        out_chunks, layer = got
+        noop = len(layer) == 0
+        if m[0] != Sym("ok"):
+            ctx.disagree("_shuffle returned but the Lean model raises", m, [list(out_chunks[ax]), noop])
+            return
+        ctx.eq("_shuffle: 'already shuffled' shortcut taken (empty layer) vs Lean alreadyShuffled", m[1], noop)
+        ctx.eq("_shuffle: output chunks along the axis vs Lean (shortcut: unchanged; else packGroups, extracted tolerance)",
+               [len(b) for b in m[3]], list(map(int, out_chunks[ax])))
+        # ---- property oracle, independent of the model --------------------------------------------------------------
+        if noop and kind != "identity":
+            ctx.fail("_shuffle took the 'already shuffled' shortcut (returned the input unchanged) for an indexer that is "
+                     "not the identity chunking: " + kind, observed=groups, expected=_identity_groups(old))
+        if noop and tuple(map(tuple, out_chunks)) != d.chunks:
+            ctx.fail("_shuffle: shortcut taken but the chunks changed", observed=out_chunks, expected=d.chunks)
+        if sum(out_chunks[ax]) != sum(map(len, groups)) or any(c <= 0 for c in out_chunks[ax]):
+            ctx.fail("_shuffle: output chunks do not add up to the indexer's length / contain an empty chunk", observed=out_chunks[ax])
+        if any(tuple(out_chunks[i]) != d.chunks[i] for i in range(x.ndim) if i != ax):
+            ctx.fail("_shuffle changed the chunks of another axis", observed=out_chunks)
+        ctx.branch("shuf:" + kind + (":shortcut" if noop else ""))
+        # ---- API level: x.shuffle / da.shuffle -------------------------------------------------------------------------
+        flat = [i for g in groups for i in g]
+        e = np.take(x, flat, axis=ax)
+        r = d.shuffle([list(g) for g in groups], axis=ax) if inp.get("api", "method") == "method" else da.shuffle(d, [list(g) for g in groups], ax)
+        if not _same(ctx, "shuffle (" + kind + ")", r, e):
+            return
+        if x.ndim == 1:
+            blocks = [np.asarray(r.blocks[i].compute(scheduler="sync")).tolist() for i in range(len(r.chunks[0]))]
+            ctx.eq("shuffle: computed blocks vs Lean shuffleBlocks", m[3], blocks)
+        if len(set(map(len, groups))) > 1:
+            ctx.branch("shuf:uneven-groups")
+        return
+    # ---- take / getitem with an integer list ----------------------------------------------------------------------------
+    from dask.array.slicing import take as slicing_take
+    index = list(inp["index"])
+    posidx = [i % sum(old) for i in index] if sum(old) else list(index)
+    m = ctx.lean(Sym("take_plan"), old, posidx, limit, line)
+    got, err = _exc(lambda: slicing_take("out-tok", d.name, d.chunks, np.asarray(posidx), ax))
+    if err is not None:
+        ctx.eq("slicing.take raises vs Lean takeBlocks", m[0], Sym("raised"))
+        ctx.branch("take:raised:" + err)
+        if posidx and sum(old):
+            ctx.fail("slicing.take raised for a valid index", observed=err)
+        return
+    tchunks, tgraph = got
+    if m[0] != Sym("ok"):
+        ctx.disagree("slicing.take returned but the Lean model raises", m, list(tchunks[ax]))
+        return
+    from dask._task_spec import Alias
+    alias = len(tgraph) > 0 and all(isinstance(v, Alias) for v in tgraph.values())
+    ctx.eq("slicing.take: full-arange alias graph vs Lean isArange", m[1], alias)
+    ctx.eq("slicing.take: output chunks vs Lean takeBlocks", [len(b) for b in m[3]], list(map(int, tchunks[ax])))
+    if len(tgraph) == 0:
+        ctx.fail("slicing.take returned an empty graph (the shortcut of _shuffle leaked into take)", observed=posidx)
+    if not alias:
+        indexer = m[2]
+        kind = _classify_indexer(old, indexer)
+        ctx.branch("take:indexer:" + kind)
+        got2, err2 = _exc(lambda: _shuffle(d.chunks, [list(g) for g in indexer], ax, d.name, "out-tok", "tok"))
+        if got2 is not None and len(got2[1]) == 0:
+            ctx.fail("_shuffle took the 'already shuffled' shortcut for the indexer slicing.take built from a non-arange index: "
+                     + kind, observed=indexer)
+    else:
+        ctx.branch("take:full-arange")
+    e = np.take(x, index, axis=ax)
+    api = inp.get("api", "take")
+    if api == "take":
+        r = da.take(d, index, axis=ax)
+    elif api == "getitem-list":
+        r = d[(slice(None),) * ax + (index,)]
+    else:
+        r = d[(slice(None),) * ax + (np.asarray(index),)]
+    if not _same(ctx, f"{api} with an integer list", r, e):
+        return
+    if x.ndim == 1 and list(map(int, r.chunks[0])) == [len(b) for b in m[3]]:
+        blocks = [np.asarray(r.blocks[i].compute(scheduler="sync")).tolist() for i in range(len(r.chunks[0]))]
+        ctx.eq(f"{api}: computed blocks vs Lean takeBlocks", m[3], blocks)
+        ctx.branch("take:blocks-diffed")
+
+
+CASES = {"shuf": case_shuf, "fn": case_fn, "concat": case_concat, "pad1d": case_pad1d, "roll1d": case_roll1d, "op": case_op}
 
 
 # ---------------------------------------------------------------------------
@@ -538,6 +683,106 @@ def _gen_op(rng):
     return inp
 
 
+_SHUF_KINDS = ["identity", "transpose-inside", "permute-inside", "reverse-inside", "cross-swap", "cross-swap-interior",
+               "regroup-split", "regroup-merge", "shift-boundary", "dup", "fewer-groups", "extra-group", "two-transpositions"]
+
+
+def _near_identity(rng, old, kind):
+    """an indexer at a chosen distance from the identity chunking of `old` (all chunks positive)"""
+    g = _identity_groups(old)
+    big = [i for i, c in enumerate(old) if c >= 4]
+    mid = [i for i, c in enumerate(old) if c >= 3]
+    two = [i for i, c in enumerate(old) if c >= 2]
+    if kind == "identity":
+        return g
+    if kind in ("transpose-inside", "two-transpositions") and big:
+        for i in ([rng.choice(big)] if kind == "transpose-inside" else rng.sample(big, min(2, len(big)))):
+            a, b = sorted(rng.sample(range(1, old[i] - 1), 2))
+            g[i][a], g[i][b] = g[i][b], g[i][a]
+        return g
+    if kind == "permute-inside" and two:
+        i = rng.choice(two)
+        while g[i] == _identity_groups(old)[i]:
+            rng.shuffle(g[i])
+        return g
+    if kind == "reverse-inside" and two:
+        i = rng.choice(two)
+        g[i] = g[i][::-1]
+        return g
+    if kind == "cross-swap" and len(old) >= 2:
+        i, j = sorted(rng.sample(range(len(old)), 2))
+        a, b = rng.randrange(old[i]), rng.randrange(old[j])
+        g[i][a], g[j][b] = g[j][b], g[i][a]
+        return g
+    if kind == "cross-swap-interior" and len(mid) >= 2:
+        i, j = sorted(rng.sample(mid, 2))
+        a, b = rng.randrange(1, old[i] - 1), rng.randrange(1, old[j] - 1)
+        g[i][a], g[j][b] = g[j][b], g[i][a]
+        return g
+    if kind == "regroup-split" and two:
+        i = rng.choice(two)
+        k = rng.randrange(1, old[i])
+        return g[:i] + [g[i][:k], g[i][k:]] + g[i + 1:]
+    if kind == "regroup-merge" and len(old) >= 2:
+        i = rng.randrange(len(old) - 1)
+        return g[:i] + [g[i] + g[i + 1]] + g[i + 2:]
+    if kind == "shift-boundary" and len(old) >= 2:
+        cand = [i for i in range(len(old) - 1) if old[i] >= 2]
+        if cand:
+            i = rng.choice(cand)
+            g[i + 1] = [g[i][-1]] + g[i + 1]
+            g[i] = g[i][:-1]
+            return g
+    if kind == "dup" and two:
+        i = rng.choice(two)
+        a = rng.randrange(1, old[i])
+        g[i][a] = g[i][a - 1]
+        return g
+    if kind == "fewer-groups" and len(old) >= 2:
+        return g[:-1]
+    if kind == "extra-group":
+        return g + [[rng.randrange(sum(old))]]
+    # fall back: a random permutation cut at the chunk boundaries
+    flat = list(range(sum(old)))
+    rng.shuffle(flat)
+    out, s = [], 0
+    for c in old:
+        out.append(flat[s:s + c])
+        s += c
+    return out
+
+
+def _gen_shuf(rng):
+    kind = rng.choice(_SHUF_KINDS)
+    if rng.random() < 0.5:   # uniform chunks: what `slicing.take` cuts the index into coincides with the chunks
+        c = rng.randint(3, 5) if kind in ("transpose-inside", "two-transpositions", "cross-swap-interior") else rng.randint(1, 5)
+        if kind in ("transpose-inside", "two-transpositions"):
+            c = max(c, 4)
+        old = [c] * rng.randint(1 if kind not in ("cross-swap", "cross-swap-interior", "regroup-merge", "shift-boundary", "fewer-groups") else 2, 4)
+    else:
+        old = rand_comp(rng, rng.randint(2, 14))
+        if kind in ("transpose-inside", "two-transpositions") and max(old) < 4:
+            old[rng.randrange(len(old))] += 3
+        if kind == "cross-swap-interior" and sum(1 for c in old if c >= 3) < 2:
+            old = [c + 2 for c in old] + ([3] if len(old) < 2 else [])
+    groups = _near_identity(rng, old, kind)
+    chunks, axis = [old], 0
+    if rng.random() < 0.3:
+        other = rand_comp(rng, rng.randint(1, 4))
+        if rng.random() < 0.5:
+            chunks, axis = [other, old], 1
+        else:
+            chunks = [old, other]
+    r = rng.random()
+    if r < 0.55:
+        return {"chunks": chunks, "axis": axis, "groups": groups, "api": rng.choice(["method", "function"])}
+    index = [i for g in groups for i in g]
+    if rng.random() < 0.15 and index:
+        k = rng.randrange(len(index))
+        index[k] -= sum(old)   # a negative spelling of the same position
+    return {"chunks": chunks, "axis": axis, "index": index, "api": rng.choice(["take", "getitem-list", "getitem-array"])}
+
+
 def generate(ctx):
     rng = ctx.rng
     # regression: DESIGN.md §6 #16
@@ -546,6 +791,23 @@ def generate(ctx):
     yield "pad1d", {"cs": [2, 1], "l": 0, "r": 3, "mode": "reflect"}
     yield "pad1d", {"cs": [0], "l": 1, "r": 0, "mode": "wrap"}
     yield "pad1d", {"cs": [0], "l": 0, "r": 0, "mode": "reflect"}
+    # --- `_shuffle`: the "already shuffled" shortcut and its near misses (function level + shuffle / take / getitem) ---
+    yield "shuf", {"chunks": [[4, 4, 4]], "axis": 0, "groups": [[0, 2, 1, 3], [4, 5, 6, 7], [8, 10, 9, 11]]}
+    yield "shuf", {"chunks": [[4, 4, 4]], "axis": 0, "groups": [[0, 1, 2, 3], [4, 5, 6, 7], [8, 9, 10, 11]]}
+    yield "shuf", {"chunks": [[4, 4, 4]], "axis": 0, "index": [0, 2, 1, 3, 4, 5, 6, 7, 8, 10, 9, 11], "api": "getitem-list"}
+    # every indexer whose group lengths are the chunk sizes (the class the shortcut looks at): all permutations of n <= 4
+    # (5 thorough) cut at the boundaries of every chunking
+    for n in range(1, (4 if not ctx.thorough() else 5) + 1):
+        for cs in comps(n):
+            for perm in itertools.permutations(range(n)):
+                groups, s0 = [], 0
+                for c in cs:
+                    groups.append(list(perm[s0:s0 + c]))
+                    s0 += c
+                if n <= 3 or ctx.thorough() or rng.random() < 0.35 or _classify_indexer(list(cs), groups) != "near-miss:cross-chunk-swap":
+                    yield "shuf", {"chunks": [list(cs)], "axis": 0, "groups": groups}
+    for _ in range(ctx.n(160, 2500)):
+        yield "shuf", _gen_shuf(rng)
     # --- exhaustive small spaces: every chunking of n <= 4 (6 thorough), every pad width within the axis ---
     top = 3 if not ctx.thorough() else 5
     for n in range(1, top + 1):
